@@ -150,6 +150,7 @@ def main():
                 k = match_known(kf, prop, u.label, f[0], f[2] if len(f) > 2 else "")
                 if k:
                     known_hits.append((k, u, f))
+                    r["obligations"] -= 1      # reported separately as a known finding, not as an open obligation
                 else:
                     fresh.append(f)
             if fresh:
